@@ -126,24 +126,39 @@ def l_default( ctx ):
     return res
 
 
+@rule( 'G-INIT', props=( 'C01', 'C14', 'C05', 'C09', 'C08' ), floor=10 )
+def g_init( ctx ):
+    """every move_if( ..., initializer= ) of the parser graphs creates its accumulator per parse (a callable, or an immutable value): a mutable
+    literal ( [] / set ) is ONE object stored into every artifact by every session - the second and later messages start with the items
+    of all earlier ones (also: state of one session leaks into another, a refused request leaks into a later accepted one)"""
+    res = Result( 'G-INIT' )
+    seen_fn = set()
+    g = grammar_of( ctx )
+    n_ok = 0
+    for label, root in sorted( g.all_roots().items() ):
+        for n in g.nodes( root ):
+            for k, t in n.edges:
+                if not isinstance( t, Decide ) or 'initializer' not in t.kw:
+                    continue
+                key_ = ( t.site, )
+                if key_ in seen_fn:
+                    continue
+                seen_fn.add( key_ )
+                s_ = ctx.src( FILES[t.site[0]] )
+                if isinstance( t.kw.get( 'initializer' ), ( list, set, bytearray )):
+                    res.bad( s_, L( t.site[1] ), 'move_if( %r, initializer=%r )' % ( t.name, t.kw.get( 'initializer' )),
+                             'the initializer is one list object shared by every parse: the second and later messages recover the items of all earlier ones', func=label )
+                else:
+                    n_ok += 1
+                    res.ok( s_, L( t.site[1] ), 'move_if( %r ): accumulator created per parse (%s)' % ( t.name, type( t.kw.get( 'initializer' )).__name__ ), nontrivial=False )
+    return res
+
+
 @rule( 'L-AGREE', props=( 'C01', 'C14' ), floor=24 )
 def l_agree( ctx ):
     """for every registered service: each layout the parser accepts is one the producer emits, and each layout the producer emits (under recognised guards) is one the parser accepts - same order, width, signedness, byte order, data path, pads, guards"""
     res = Result( 'L-AGREE' )
     seen_fn = set()
-    # list accumulators are created per parse: a move_if initializer must not be a shared mutable literal
-    g = grammar_of( ctx )
-    for label, root in sorted( g.all_roots().items() ):
-        for n in g.nodes( root ):
-            for k, t in n.edges:
-                if isinstance( t, Decide ) and isinstance( t.kw.get( 'initializer' ), ( list, set )):
-                    s_ = ctx.src( FILES[t.site[0]] )
-                    key_ = ( t.site, )
-                    if key_ in seen_fn:
-                        continue
-                    seen_fn.add( key_ )
-                    res.bad( s_, L( t.site[1] ), 'move_if( %r, initializer=%r )' % ( t.name, t.kw.get( 'initializer' )),
-                             'the initializer is one list object shared by every parse: the second and later messages recover the items of all earlier ones', func=label )
     for e in service_layouts( ctx ):
         label = '%s 0x%02X %s' % ( e['cls'], e['number'], e['name'] )
         psrc = ctx.src( FILES[e['site'][0]] )
@@ -788,4 +803,49 @@ def k_ncpstate( ctx ):
     if n < 1:
         raise AnalysisError( 'defaults.Connection: no method storing _NCP / _large found' )
     res.ok( src, cd, 'decoding readers of ( _NCP, _large ): %s' % sorted( decoders ), nontrivial=False )
+    return res
+
+
+@rule( 'K-STALEMEMO', props=( 'C01', 'C14' ), floor=10 )
+def k_stalememo( ctx ):
+    """a produce() that stores what it encoded back into the message ( item.input = encode( item.<fields> ), data.input = ... ) never uses the
+    presence of that stored value to skip the encoding: the stored bytes are an OUTPUT, not a cache - after any field is changed a second
+    produce() must emit the new encoding"""
+    res = Result( 'K-STALEMEMO' )
+    n = 0
+    for rel in ( 'server/enip/parser.py', 'server/enip/device.py', 'server/enip/logix.py' ):
+        src = ctx.src( rel )
+        for qn, defs in sorted( src.defs.items()):
+            fn = defs[-1]
+            if not isinstance( fn, ast.FunctionDef ) or fn.name != 'produce':
+                continue
+            stores = []
+            for s in walk_no_nested( fn ):
+                if isinstance( s, ast.Assign ):
+                    for t in s.targets:
+                        if isinstance( t, ast.Attribute ) and isinstance( t.value, ast.Name ):
+                            stores.append(( s, t.value.id, t.attr ))
+                        elif isinstance( t, ast.Subscript ) and isinstance( t.value, ast.Name ) and isinstance( try_fold( t.slice ), str ):
+                            stores.append(( s, t.value.id, try_fold( t.slice )))
+            n += 1
+            bad = False
+            for s, obj, attr in stores:
+                # only values that ARE an encoding ( ... .produce( ... ) / struct.pack ): defaults filled in for absent fields are not memos
+                if not any( isinstance( c_, ast.Call ) and (( isinstance( c_.func, ast.Attribute ) and c_.func.attr in ( 'produce', 'pack' )) or call_name( c_ ) in ( 'octets_encode', 'enip_encode' )) for c_ in ast.walk( s.value )):
+                    continue
+                for a in src.ancestors( s ):
+                    if a is fn:
+                        break
+                    if not isinstance( a, ast.If ):
+                        continue
+                    in_body = any( s is x for b in a.body for x in ast.walk( b ))
+                    for c in ast.walk( a.test ):
+                        if isinstance( c, ast.Compare ) and len( c.ops ) == 1 and isinstance( c.ops[0], ( ast.In, ast.NotIn )) and try_fold( c.left ) == attr and dotted( c.comparators[0] ) == obj:
+                            skipped_when_present = ( isinstance( c.ops[0], ast.NotIn ) and in_body ) or ( isinstance( c.ops[0], ast.In ) and not in_body )
+                            if skipped_when_present:
+                                bad = True
+                                res.bad( src, a, '%s: %s.%s is encoded only when it is not already present ( %s )' % ( qn, obj, attr, norm_text( a.test )[:80] ),
+                                         'produce() itself stored %s.%s on an earlier call: the second produce() of a message whose fields were changed in between emits the OLD bytes (and the old length)' % ( obj, attr ), func=qn )
+            if not bad:
+                res.ok( src, fn, '%s: nothing it stores into the message is used to skip its own encoding' % qn, nontrivial=False )
     return res
